@@ -15,13 +15,16 @@ Pool == <<MkDef(1, 10, <<1>>, <<1>>, <<>>, <<(<<1, 11>>), (<<2, 12>>)>>),
           MkDef(3, 10, <<3, 4>>, <<>>, <<>>, <<(<<3, 33>>)>>),
           MkDef(4, 5, <<5>>, <<3>>, <<>>, <<(<<2, 42>>)>>),
           MkDef(5, 10, <<>>, <<>>, <<>>, <<>>),
-          MkDef(6, 20, <<4, 3>>, <<1>>, <<>>, <<(<<3, 63>>)>>)>>
+          MkDef(6, 20, <<4, 3>>, <<1>>, <<>>, <<(<<3, 63>>)>>),
+          MkDef(7, 10, <<>>, <<2>>, <<>>, <<(<<4, 74>>)>>)>>      \* no transformations, but post-processing and a variable (a second concat finalizer after pipeline 2's would be fed a string)
 NPool == Len(Pool)
 Seqs(n) == {s \in [1..n -> 1..NPool] : \A i, j \in 1..n : i # j => s[i] # s[j]}
 MaxSum == IF Quick THEN 3 ELSE 4
 SumCases == UNION {{[op |-> "sum", operands |-> s, tree |-> t, ref |-> SumSeq([i \in 1..n |-> Pool[s[i]]])]
                      : s \in Seqs(n), t \in Brackets(1, n)} : n \in 1..MaxSum}
-ResolveCases == UNION {{[op |-> "resolve", operands |-> s, tree |-> Leaf(1), ref |-> Resolve([i \in 1..n |-> Pool[s[i]]])]
+\* (every resolver case made of pipelines 5 and 7 only has NO transformation at all)
+ResolveCases == {[op |-> "resolve", operands |-> s, tree |-> Leaf(1), ref |-> Resolve([i \in 1..Len(s) |-> Pool[s[i]]])]
+                     : s \in {<<7>>, <<5, 7>>, <<7, 5>>}} \cup UNION {{[op |-> "resolve", operands |-> s, tree |-> Leaf(1), ref |-> Resolve([i \in 1..n |-> Pool[s[i]]])]
                      : s \in Seqs(n)} : n \in 2..(IF Quick THEN 3 ELSE 4)}
 BackendCases == {[op |-> "backend", operands |-> s, tree |-> Leaf(1), ref |-> SumSeq([i \in 1..3 |-> Pool[s[i]]])]
                      : s \in (IF Quick THEN RandomSubset(40, Seqs(3)) ELSE Seqs(3))}
